@@ -140,3 +140,61 @@ PROPS["C11"] = dict(
     assumptions=["the Gallina mirrors of Debug and of the parser are faithful (differential testing only)", OUTSIDE],
     explanation=("PARTIAL proof: Debug = reference rendering is a theorem for all terms with indices 1..15 and both glyphs; "
                  "the round trip is decided by running implementation and model on the printed strings."))
+
+TIE_A = ("tie (A): coq/theories/Gen/Terms.v is REGENERATED on every run from the compiled crate by "
+         "harness/src/bin/dump_terms.rs (calls every exported term-valued function; own 10-line serialiser; the "
+         "enumeration is checked against `pub fn .. -> Term` in the sources) and the property's proofs are re-checked "
+         "against it")
+DATA_TB = [KERNEL, NOAX, TIE_A, TIE_B + "; modelled: the reducer (as C01) and the conversion loops of "
+           "src/data/num/convert.rs, src/data/list/convert.rs, tuple!/pi!", ORACLE,
+           "expected results are computed natively (usize arithmetic, Vec operations) by the harness and encoded with "
+           "the Spec encoders of coq/theories/Spec/Encodings.v", OUTSIDE]
+DATA_ASM = ["bounded grids are theorems only for the bounds written in their statements",
+            "the Gallina mirror of the reducer is faithful (differential testing only)", OUTSIDE]
+
+PROPS["C12"] = dict(
+    suites=["ops:convert"], oracle_re=r"oracle:C12:", gen=True,
+    rule=("n.into_E() for n <= 120 (quick) / 300 (thorough) (Parigot <= 12/16, its numerals double in size), binary also "
+          "at 2^8..2^20; into_signed for |z| <= 12/40 in four encodings; zero()/one(); pairs, options, results and "
+          "vectors of numbers; non-trivial = distinct (encoding, number)"),
+    trusted_base=DATA_TB, assumptions=DATA_ASM,
+    explanation=("Theorems for all n: the constructor loops equal the documented closed forms; these are closed, normal, "
+                 "decodable (hence injective); zero()/one() (generated constants) are the encodings of 0 and 1; containers "
+                 "and into_signed (zero of the same encoding)."))
+PROPS["C13"] = dict(
+    suites=["ops:church"], oracle_re=r"oracle:C13:", gen=True,
+    rule=("all 23 Church operations on the square m, n <= 5 (quick) / 7 (thorough) (smaller for pow, fac, shl), under NOR, "
+          "HNO, HAP and (operations without a fixed-point combinator) APP; non-trivial = at least one contraction"),
+    trusted_base=DATA_TB, assumptions=DATA_ASM,
+    explanation=("Proved for all arguments: soundness under every normalising order and NOR completeness (so a reachable "
+                 "numeral is what NOR returns). Bounded in-kernel grid (m, n <= 3) on the generated constants for all 23 "
+                 "operations and all documented orders. The unbounded convertibility theorems are being added per operation."))
+PROPS["C14"] = dict(
+    suites=["ops:othernum"], oracle_re=r"oracle:C14:", gen=True,
+    rule=("Scott/Parigot/Stump-Fu operations and the 7 conversions for m, n <= 4 (quick) / 6 (thorough), binary 0..40/70 "
+          "(results of succ/pred/shl0 compared after decoding with leading zeroes allowed), orders as documented"),
+    trusted_base=DATA_TB, assumptions=DATA_ASM,
+    explanation="Bounded in-kernel grid on the generated constants + correspondence/oracle on a larger grid; soundness as C13.")
+PROPS["C15"] = dict(
+    suites=["ops:signed"], oracle_re=r"oracle:C15:", gen=True,
+    rule=("four encodings, all pairs (p, n) with components <= 3/4 for the unary operations and p1, n1, p2, n2 <= 2/3 for "
+          "add, sub, mul, under NOR and HNO; inputs are arbitrary, not only canonical, pairs"),
+    trusted_base=DATA_TB, assumptions=DATA_ASM,
+    explanation="Bounded in-kernel grid on the generated constants + correspondence/oracle; soundness as C13.")
+PROPS["C16"] = dict(
+    suites=["ops:lists", "ops:convert"], oracle_re=r"oracle:C16:", gen=True,
+    rule=("nil/cons/head/tail/is_nil of the four list encodings on all lists of length <= 3/4 over 3 values and on "
+          "symbolic (free-variable) element and tail; the 18 pair-list functions on all lists of length <= 3/4 over 2/3 "
+          "values (pairs of lists, all counts up to length + 1); NOR, HNO, HAP"),
+    trusted_base=DATA_TB, assumptions=DATA_ASM,
+    explanation=("Proved for all lists: the vector conversions equal the closed forms (repeated cons normal forms). Bounded "
+                 "in-kernel grid (lists of length <= 3 over {0,1}) for all constructors/observers and library functions."))
+PROPS["C17"] = dict(
+    suites=["ops:laws", "ops:convert"], oracle_re=r"oracle:C17:", gen=True,
+    rule=("each law with free-variable payloads (two assignments) and with random closed normal payloads, both sides "
+          "normalised by the implementation under NOR, HNO, APP, HAP; truth tables; tuple!/pi! for n <= 4; fixed-point "
+          "combinators by bounded common reducts"),
+    trusted_base=DATA_TB, assumptions=DATA_ASM,
+    explanation=("Theorems for ALL payload terms on the generated constants: the 9 combinator equations, Y/T/Z fixed-point "
+                 "convertibilities, Omega loops; fst/snd/swap/curry/uncurry; 12 option laws; 16 result laws; 7 truth "
+                 "tables, not, if_else. Not yet theorems: pi!/tuple! for all n, From conversions (oracle only)."))
